@@ -154,6 +154,8 @@ class UploadPipeline(Scenario):
             "bufsize": rng.choice([1, 2, 5, 16, 64, 1024, 65536]),
             "tape": [] if rng.random() < 0.4 else [rng.choice([0, 0, 1, 2, 7, 50]) for _ in range(60)],
             "field_split": rng.random() < 0.3,
+            # how the application fills the builder: constructor data, in-place adds, or assigning form / files in either order
+            "builder_form": rng.choice(["ctor", "ctor", "inplace", "assign_form_first", "assign_files_first", "ctor_files_then_assign_form", "ctor_fields_then_assign_files"]),
         }
 
     # ------------------------------------------------------------------
@@ -255,18 +257,53 @@ class UploadPipeline(Scenario):
         wt.time = lambda: float(case.get("time", 1.0))
         wt.random = lambda: float(case.get("rand", 0.5))
         try:
-            data = MultiDict()
-            for p in parts:
-                data.add(str(p.get("name", "")), fs(p) if p.get("kind") == "file" else str(p.get("value", "")))
             # force multipart even without files so the multipart clause is exercised
-            b = wt.EnvironBuilder(method="POST", data=data, content_type=None if any(p.get("kind") == "file" for p in parts) else "multipart/form-data")
+            ct = None if any(p.get("kind") == "file" for p in parts) else "multipart/form-data"
+            how = case.get("builder_form", "ctor")
+            order = "grouped-split"
+            if how not in ("inplace", "assign_form_first", "assign_files_first", "ctor_files_then_assign_form", "ctor_fields_then_assign_files"):
+                data = MultiDict()
+                for p in parts:
+                    data.add(str(p.get("name", "")), fs(p) if p.get("kind") == "file" else str(p.get("value", "")))
+                b = wt.EnvironBuilder(method="POST", data=data, content_type=ct)
+            else:
+                from werkzeug.datastructures import FileMultiDict
+
+                order = "grouped-separately"
+                fm, fl = MultiDict(), FileMultiDict()
+                for p in parts:
+                    if p.get("kind") == "file":
+                        fl.add_file(str(p.get("name", "")), fs(p))
+                    else:
+                        fm.add(str(p.get("name", "")), str(p.get("value", "")))
+                if how == "inplace":
+                    b = wt.EnvironBuilder(method="POST", content_type=ct)
+                    for k, v in fm.items(multi=True):
+                        b.form.add(k, v)
+                    for k, v in fl.items(multi=True):
+                        b.files.add_file(k, v)
+                elif how == "assign_form_first":
+                    b = wt.EnvironBuilder(method="POST", content_type=ct)
+                    b.form = fm
+                    b.files = fl
+                elif how == "assign_files_first":
+                    b = wt.EnvironBuilder(method="POST", content_type=ct)
+                    b.files = fl
+                    b.form = fm
+                elif how == "ctor_files_then_assign_form":
+                    b = wt.EnvironBuilder(method="POST", data=MultiDict(fl.items(multi=True)), content_type=ct)
+                    b.form = fm
+                else:
+                    b = wt.EnvironBuilder(method="POST", data=fm, content_type=ct)
+                    b.files = fl
+                out.probe("builder_filled_in_steps")
             environ = b.get_environ()
         finally:
             wt.time, wt.random = old_t, old_r
         body = environ["wsgi.input"].read()
         out.fault("short_file_read", sum(s.read_calls for s in sims))
         out.fault("pinned_clock_and_random", 1)
-        return body, None, environ, "grouped-split"
+        return body, None, environ, order
 
     def execute(self, case: dict) -> Outcome:
         out = Outcome()
@@ -281,6 +318,9 @@ class UploadPipeline(Scenario):
             out.violate(f"{pre}/encode-raises/{type(e).__name__}/enc={enc}", f"{type(e).__name__}: {e}")
             return self.done(out, tr, case, seq)
         if out.violations:
+            return self.done(out, tr, case, seq)
+        if environ is not None and "multipart/form-data" not in environ.get("CONTENT_TYPE", ""):
+            out.violate(f"{pre}/request-not-multipart/enc=builder", f"the builder was given {len(seq)} fields/files but produced CONTENT_TYPE {environ.get('CONTENT_TYPE')!r} with a {len(body)}-byte body")
             return self.done(out, tr, case, seq)
         ctype = environ["CONTENT_TYPE"] if environ else f'multipart/form-data; boundary="{boundary.decode()}"'
         if environ is not None:
@@ -298,7 +338,10 @@ class UploadPipeline(Scenario):
         fl = iter(fields)
         for s_ in seq:
             full.append(s_ + ((next(fi)[2], None) if s_[0] == "file" else (None, next(fl)[1])))
-        if order != "sequence":
+        if order == "grouped-separately":
+            # form and files were filled as two containers: each iterates grouped by its own keys
+            full = [x[1:] for kind in ("field", "file") for x in grouped([(x[1],) + x for x in full if x[0] == kind])]
+        elif order != "sequence":
             full = [x[1:] for x in grouped([(x[1],) + x for x in full])]
         if order == "grouped-split":
             full = [x for x in full if x[0] == "field"] + [x for x in full if x[0] == "file"]
